@@ -11,7 +11,28 @@ pub fn tick() {
     TICKS.fetch_add(1, Ordering::Relaxed);
 }
 
+static CURRENT_FILE: Mutex<Option<std::fs::File>> = Mutex::new(None);
+
+/// VERIF_CURRENT_FILE=<path>: the case being executed is also written to that file, so that a
+/// process killed by the code under test (abort on a huge allocation, stack overflow) can still be
+/// attributed to the call that killed it.
+pub fn init_current_file() {
+    if let Ok(p) = std::env::var("VERIF_CURRENT_FILE") {
+        if let Ok(f) = std::fs::File::create(p) {
+            *CURRENT_FILE.lock().unwrap() = Some(f);
+        }
+    }
+}
+
 pub fn set_current(desc: String) {
+    if let Ok(mut g) = CURRENT_FILE.lock() {
+        if let Some(f) = g.as_mut() {
+            use std::io::{Seek, Write};
+            let _ = f.set_len(0);
+            let _ = f.seek(std::io::SeekFrom::Start(0));
+            let _ = f.write_all(desc.as_bytes());
+        }
+    }
     if let Ok(mut c) = CURRENT.lock() {
         *c = desc;
     }
